@@ -133,13 +133,21 @@ type solverSpec struct {
 var solvers = []solverSpec{
 	{"z3-new", func(f string, t, seed int) []string {
 		return []string{"z3-new", fmt.Sprintf("-T:%d", t), fmt.Sprintf("smt.random_seed=%d", seed), f}
-	}, nil},
+	}, noSetLogic},
 	{"cvc5", func(f string, t, seed int) []string {
-		return []string{"cvc5", "--incremental", fmt.Sprintf("--tlimit=%d", t*1000), fmt.Sprintf("--seed=%d", seed), f}
+		return []string{"cvc5", "--incremental", "--strings-exp", fmt.Sprintf("--tlimit=%d", t*1000), fmt.Sprintf("--seed=%d", seed), f}
 	}, nil},
 	{"z3", func(f string, t, seed int) []string {
 		return []string{"z3", fmt.Sprintf("-T:%d", t), fmt.Sprintf("smt.random_seed=%d", seed), f}
-	}, nil},
+	}, noSetLogic},
+}
+
+// noSetLogic: the z3 solvers get the query without "(set-logic ALL)". With that line z3 5.1.0 selects a strategy
+// that answered "unsat" on a satisfiable set of entry assumptions (seen once, on the vacuity guard of
+// interpreter.(*Native).Match; not reproducible with any other seed, tactic or with the line removed);
+// without it z3 uses its plain SMT core. cvc5 needs the line.
+func noSetLogic(q string) string {
+	return strings.Replace(q, "(set-logic ALL)\n", "", 1)
 }
 
 var workDir string
@@ -197,6 +205,12 @@ func runSolvers(query string, timeoutS int, seed int, confirm bool, only []strin
 		nrun++
 		go func(s solverSpec) {
 			start := time.Now()
+			file := file
+			if s.prep != nil {
+				file = strings.TrimSuffix(file, ".smt2") + "." + s.name + ".smt2"
+				os.WriteFile(file, []byte(s.prep(query)), 0o644)
+				defer os.Remove(file)
+			}
 			argv := s.argv(file, timeoutS, seed)
 			cmd := exec.CommandContext(ctx, argv[0], argv[1:]...)
 			var out bytes.Buffer
